@@ -186,7 +186,7 @@ fn drain_jobs(len: usize, depth: usize) -> Vec<(Vec<Call>, Term)> {
 }
 
 fn run_shape<E: Elem>(c: usize, r: usize, ctx: &mut Ctx) {
-    let labels: Vec<u32> = (0..(c * r) as u32).collect();
+    let labels: Vec<u32> = if E::ZST { vec![0; c * r] } else { (0..(c * r) as u32).collect() };
     for op in ["remove_row", "pop_row", "remove_col", "pop_col"] {
         let row = op.ends_with("row");
         let pop = op.starts_with("pop");
@@ -442,7 +442,7 @@ impl Prop for C07P {
     fn units(&self, tier: Tier) -> Vec<String> {
         let mut v = Vec::new();
         for (c, r) in shapes(n_for(tier)) {
-            for tag in ["U", "T"] {
+            for tag in ["U", "T", "Z"] {
                 v.push(format!("{} {}x{}", tag, c, r));
             }
         }
@@ -463,6 +463,7 @@ impl Prop for C07P {
         let (c, r): (usize, usize) = (c.parse().unwrap(), r.parse().unwrap());
         match tag {
             "U" => run_shape::<u32>(c, r, ctx),
+            "Z" => run_shape::<crate::engine::ledger::TrackedZst>(c, r, ctx),
             _ => run_shape::<Tracked>(c, r, ctx),
         }
     }
@@ -471,7 +472,7 @@ impl Prop for C07P {
         true
     }
     fn rule(&self) -> String {
-        "(arrays of () with usize::MAX, MAX-1, MAX/3 x 3, ... cells are additionally run through the removal of their last row / column and through out-of-range removals) every shape (0..=N)^2 x {remove_row(i), remove_col(i) : i in 0..=dim} + pop_row + pop_col (also on the empty array) x element type {u32, Tracked} x {exact, spare} capacity x EVERY sequence over {next, next_back} of length 0..=len+1 (all interleavings, including one call past exhaustion) plus every sequence up to depth 3 (thorough: 4) over the extended alphabet {next, next_back, nth(1), nth_back(1), nth(2), nth_back(len)} with every prefix closed by count / last / fold / rfold / for_each / rev-then-forward (the adaptors skip, step_by and rev are built on these), with len() and size_hint() observed after every call, then the drain is dropped. \
+        "(arrays of () with usize::MAX, MAX-1, MAX/3 x 3, ... cells are additionally run through the removal of their last row / column and through out-of-range removals) every shape (0..=N)^2 x {remove_row(i), remove_col(i) : i in 0..=dim} + pop_row + pop_col (also on the empty array) x element type {u32, Tracked, a zero-sized type with a destructor (counted)} x {exact, spare} capacity x EVERY sequence over {next, next_back} of length 0..=len+1 (all interleavings, including one call past exhaustion) plus every sequence up to depth 3 (thorough: 4) over the extended alphabet {next, next_back, nth(1), nth_back(1), nth(2), nth_back(len)} with every prefix closed by count / last / fold / rfold / for_each / rev-then-forward (the adaptors skip, step_by and rev are built on these), with len() and size_hint() observed after every call, then the drain is dropped. \
          Oracle: each call's result equals the ideal double-ended sequence of the removed line (by label and by element identity); len()/size_hint() exact at every step; after the drop the array equals the model without that line (same elements, same relative positions), (0,0) if it was the last line; ledger: yielded elements stay alive while held, the rest of the line is dropped exactly once, nothing else; out-of-range index panics and leaves the array untouched; pop on empty returns None; guard allocator clean. \
          states = distinct (shape, op, index, front/back cursor) positions of the ideal sequence reached; transitions = drain calls; traces_validated_against_impl = drain lifetimes executed on the real code."
             .into()
